@@ -1,6 +1,6 @@
 import re
 from dataclasses import dataclass
-from typing import Sequence, cast
+from typing import Any, Sequence, cast
 
 from nix_manipulator.exceptions import ResolutionError
 from nix_manipulator.expressions import (
@@ -478,10 +478,13 @@ def _remove_attrpath_value(target_set: AttributeSet, segments: list[str]) -> Non
     assert stack is not None
     parent_set, leaf_binding = stack[-1]
     parent_set.values.remove(leaf_binding)
+    removed_entry: tuple[int, list[Any]] | None = None
     if target_set.attrpath_order:
         for index, item in enumerate(target_set.attrpath_order):
             if isinstance(item, _AttrpathEntry) and item.binding is leaf_binding:
                 del target_set.attrpath_order[index]
+                after = item.after if item.after is not None else leaf_binding.after
+                removed_entry = (index, list(after))
                 break
 
     for parent_set, binding in reversed(stack[:-1]):
@@ -489,6 +492,9 @@ def _remove_attrpath_value(target_set: AttributeSet, segments: list[str]) -> Non
             parent_set.values.remove(binding)
         else:
             break
+
+    if removed_entry is not None:
+        target_set._keep_own_line_comments(removed_entry[1], removed_entry[0])
 
 
 def _resolve_npath_parent(
